@@ -291,6 +291,7 @@ func autoVarNameOf(c *spec.Cmd, p *spec.Program) string {
 
 func runC16(ctx *h.Ctx) int {
 	prof := profFull()
+	prof.NoSharedResultVar = true // the monitor finds an AutoVar operand's source construct through its result var
 	paths := []string{"src/test.pory", `C:\proj\data\map.pory`, "a b/ü.pory", "x.pory", `\\srv\share\f.pory`, "C:/Users/山田\u3000太郎/a.pory", "dir\u00a0with nbsp/b.pory", "zero\u200bwidth/\ue000private.pory", "tab\there.pory", `quo"te.pory`}
 	ctx.RunCases("markers", ctx.N(4000, 200000), func(k *h.Case) {
 		p := prof
